@@ -104,6 +104,7 @@ class Sub:
     exhaustive: Any = False  # True / tuple of tiers in which enum covers a finite space completely
     doc: str = ""
     serial: bool = False  # run in the parent process (body spawns its own workers)
+    shrink: bool = True  # drop Hypothesis' shrink phase for expensive bodies (the unshrunk case is the replay)
 
 
 # --------------------------------------------------------------------------
@@ -290,7 +291,7 @@ def _run_hyp(mod, sub, tier, seed, shard, nshards, stats, known, excluded_bucket
                 last["v"] = v
                 raise v
 
-        phases = [Phase.generate, Phase.shrink] if True else [Phase.generate]
+        phases = [Phase.generate, Phase.shrink] if sub.shrink else [Phase.generate]
         test = settings(
             max_examples=n,
             deadline=None,
@@ -311,6 +312,8 @@ def _run_hyp(mod, sub, tier, seed, shard, nshards, stats, known, excluded_bucket
             )
             excluded_buckets.add((sub.name, v.clause))
             n = max(1, n // 2)
+        except hypothesis.errors.Flaky as exc:
+            raise HarnessError(f"{sub.name}: body is not deterministic: {str(exc)[:1500]}") from exc
         except hypothesis.errors.Unsatisfiable as exc:
             raise HarnessError(f"{sub.name}: generator unsatisfiable: {exc}") from exc
 
